@@ -188,7 +188,9 @@ def check_aba(ctx, st, S, A, B, patA, patB, atol, seed, w, tol, fraction=1.0, sa
         from vmon.oracle import refmatch
         ref = refmatch.search(elements_of(S), np.asarray(S.positions, float), np.array(S.cell, float), list(patA["elements"]), np.asarray(patA["positions"], float), atol)
         reported = {tuple(sorted(int(i) for i in m)) for m in (o1.get("all_found") or o1["found"])}
-        if ref["truncated"] or any(g["cls"] == "gray" and k not in reported for k, g in ref["groups"].items()):
+        # (thorough run 14: the same holds for a borderline group that IS reported - an unplanted group of atoms of different copies
+        # fitting at 0.9 tolerances was substituted, and the five-atom B put on it, aligned on other atoms, no longer fits on the way back)
+        if ref["truncated"] or any(g["cls"] == "gray" for k, g in ref["groups"].items()):
             st.count("not_judged_borderline_group_present")
             return 0
     S1 = o1["result"]
